@@ -19,6 +19,9 @@ claim("C12", "other",
       "with physical values from the independent declaration oracle, <=/>= mirror, == is reflexive and "
       "symmetric (Measurement/approximately/Level for all measurands and uncertainties), and searches "
       "for equal quantities whose hashed (magnitude, unit) tuples differ, replayed with the real hash(). "
+      "Over ALL named units of a dimension, order is tied to physical values through C04's sizes query on the "
+      "factors extracted from the real convert: where no consistent sizes exist, three quantities with "
+      "a < b < c < a are built from the factors and replayed. "
       "Unit pairs and operand/numeric kinds are a finite enumerated family.",
       "Exact real arithmetic over the code's binary constants; tie zone excluded for different units; "
       "unit pairs limited to the family listed in props/c12.py; int magnitudes only on exact pairs; "
@@ -94,8 +97,10 @@ claim("C06", "other",
       "groups of convertible spellings (other unit and/or prefix, incl. SI/IEC mixes) and cross-dimension "
       "pairs; z3 decides for ALL x,y that SI(a op b) equals the operation on SI(a), SI(b) within 1e-5 per "
       "degree, SI being magnitude times the unit size from the independent declaration oracle applied to "
-      "the very unit object the library returned; ==/< agree with SI values away from ties.",
-      "Exact reals over the code's constants; groups listed in props/c06.py; n in [-3,3].",
+      "the very unit object the library returned; ==/< agree with SI values away from ties; + - == < also on "
+      "Decimal and int magnitudes for the spellings that differ by a prefix (SI, IEC, mixed) or a unit.",
+      "Exact reals over the code's constants; groups listed in props/c06.py; n in [-3,3]; Decimal / int "
+      "counterexamples are candidates confirmed by the replay.",
       "shadow-symbolic execution of real operators + z3 NRA vs size oracle", "DESIGN.md 4/C06", "symnum")
 
 claim("C03", "other",
@@ -153,8 +158,9 @@ claim("C02", "proof",
       "DESIGN.md 4/C02", "internmodel")
 
 claim("C11", "other",
-      "Key level: both sides of 9 prefix/unit identities ((p*u)**n = p**n*u**n, u/(p*v) carries p**-1, "
-      "root inverts **, identity prefix neutral, ...) are evaluated by the REAL operators on shadow operands "
+      "Key level: both sides of 18 prefix/unit identities ((p*u)**n = p**n*u**n, u/(p*v) carries p**-1, "
+      "root inverts **, identity prefix neutral on either side, a prefix written on the right of a prefixed unit, "
+      "operands sharing one prefix object, ...) are evaluated by the REAL operators on shadow operands "
       "with unbounded symbolic exponents and z3 proves the intern keys equal; same-base prefix product/"
       "quotient/power is proved to be exact integer exponent arithmetic. Value level: the real unprefixed / "
       "in_unit / ** / '/' / == run on a symbolic magnitude for every registered SI and IEC prefix and a "
